@@ -240,6 +240,16 @@ theorem cinv_step (g : Cfg) (hl : g.leak = false) (s s' : St) (a : Act) (h : CIn
       cases hs
       exact ⟨by simp [nFailed, dFailed, stopTerm, hd] at hc ⊢; omega, hb⟩
     · cases hs
+  | call t =>
+    simp only [step] at hs
+    cases hs
+    exact ⟨by simpa [nFailed, dFailed, stopTerm] using hc, hb⟩
+  | cFinish i p =>
+    simp only [step] at hs
+    split at hs
+    · cases hs
+      exact ⟨by simpa [nFailed, dFailed, stopTerm] using hc, hb⟩
+    · cases hs
   | stopAdd =>
     simp only [step] at hs
     split at hs
@@ -268,7 +278,8 @@ theorem cinv_run (g : Cfg) (hl : g.leak = false) (as : List Act) : ∀ s, CInv g
 
 /-- every place a task can be -/
 def allTasks (s : St) : List Nat :=
-  s.goers.flatMap gTask ++ s.queue ++ s.workers.flatMap wTask ++ dTask s.disp ++ s.done ++ s.dropped
+  s.goers.flatMap gTask ++ s.queue ++ s.workers.flatMap wTask ++ dTask s.disp ++ s.done ++ s.dropped ++
+    s.callers.flatMap cTask
 
 /-- each task handed over is in exactly as many places as it was handed over times -/
 def Cons (s : St) : Prop := ∀ t, (allTasks s).count t = s.handed.count t
@@ -407,6 +418,18 @@ theorem cons_step (g : Cfg) (s s' : St) (a : Act) (h : Cons s) (hs : step g s a 
     · rename_i t hd
       cases hs
       simp [List.count_append, dTask, hd, List.count_cons] at h0 ⊢; omega
+    · cases hs
+  | call t =>
+    simp only [step] at hs
+    cases hs
+    simp [List.count_append, List.flatMap_append, cTask, List.count_cons] at h0 ⊢; omega
+  | cFinish i p =>
+    simp only [step] at hs
+    split at hs
+    · rename_i t hc
+      cases hs
+      have := count_flatMap_eraseIdx cTask t0 s.callers i _ hc
+      simp [List.count_append, cTask, List.count_cons] at h0 this ⊢; omega
     · cases hs
   | stopAdd =>
     simp only [step] at hs
